@@ -33,6 +33,11 @@ Lemma dac_repeat_nl : forall n, doc_all_comments (repeat Nl n) = [].
 Proof. induction n; [reflexivity|]. cbn [repeat]. rewrite dac_cons, IHn. reflexivity. Qed.
 Lemma dac_wrap_parens : forall b d, doc_all_comments (wrap_parens b d) = doc_all_comments d.
 Proof. intros [] d; [|reflexivity]. unfold wrap_parens. rewrite !dac_app. cbn. now rewrite app_nil_r. Qed.
+Lemma dac_protect_minus : forall d b, doc_all_comments (protect_minus d b) = doc_all_comments d.
+Proof.
+  intros d b. unfold protect_minus. destruct (negb b && starts_with_minus (render d)); [|reflexivity].
+  rewrite !dac_app. cbn. now rewrite app_nil_r.
+Qed.
 
 (* a document shows every comment it accounts for as soon as what it printed opaquely is comment-free *)
 Lemma dc_eq_dac : forall d, forallb cfree (doc_opaque d) = true -> doc_comments d = doc_all_comments d.
@@ -76,9 +81,7 @@ Fixpoint wf_ast (e : expr) : bool :=
 
 (* ------------------------------------------------------------------ layouts *)
 Section Layouts.
-  Variable e2s : expr -> string.
-  Variable needs_parens : binop -> expr -> bool -> bool.
-  Variable record_key : string -> string.
+  Variable O : oracles.
   Variable w : nat.
   Variable rec : expr -> nat -> doc.
 
@@ -111,7 +114,7 @@ Section Layouts.
     end.
 
   Lemma entry_doc_keeps : forall r i, keeps_entry r ->
-    doc_all_comments (entry_doc record_key rec r i) = entry_comments expr_comments r.
+    doc_all_comments (entry_doc O rec r i) = entry_comments expr_comments r.
   Proof.
     intros [[key|k|name|x] v] i H; cbn [entry_doc entry_comments keeps_entry] in *.
     - rewrite dac_cons. apply H.
@@ -122,7 +125,7 @@ Section Layouts.
 
   Lemma rec_entries_keeps : forall l inner,
     Forall (fun c => keeps_entry (cnode c)) l ->
-    doc_all_comments (rec_entries_doc record_key rec l inner) = entries_comments expr_comments l.
+    doc_all_comments (rec_entries_doc O rec l inner) = entries_comments expr_comments l.
   Proof.
     induction l as [|[lead n tr] r IH]; intros inner H; [reflexivity|].
     inversion H as [|? ? Hn Hr]; subst. cbn [cnode] in Hn. cbn [rec_entries_doc entries_comments].
@@ -132,27 +135,29 @@ Section Layouts.
 
   Lemma record_doc_keeps : forall entries i,
     Forall (fun c => keeps_entry (cnode c)) entries ->
-    doc_all_comments (record_doc record_key rec entries i) = entries_comments expr_comments entries.
+    doc_all_comments (record_doc O rec entries i) = entries_comments expr_comments entries.
   Proof.
     intros entries i H. destruct entries as [|c r]; [reflexivity|].
     unfold record_doc. rewrite !dac_app, (rec_entries_keeps _ _ H). cbn. now rewrite app_nil_r.
   Qed.
 
   Lemma lambda_doc_keeps : forall args body i, keeps body ->
-    doc_all_comments (lambda_doc w rec args body i) = expr_comments body.
+    doc_all_comments (lambda_doc O w rec args body i) = expr_comments body.
   Proof.
     intros args body i H. unfold lambda_doc. cbv zeta.
     destruct (is_do body); [rewrite dac_app; apply H|].
-    match goal with |- context [if ?b then _ else _] => destruct b end; rewrite dac_app; apply H.
+    match goal with |- context [if ?b then _ else _] => destruct b end;
+      rewrite dac_app, dac_wrap_parens; apply H.
   Qed.
 
-  Lemma do_stmts_keeps : forall l inner,
+  Lemma do_stmts_keeps : forall l inner first,
     Forall (fun c => keeps (cnode c)) l ->
-    doc_all_comments (do_stmts_doc rec l inner) = items_comments expr_comments l.
+    doc_all_comments (do_stmts_doc rec l inner first) = items_comments expr_comments l.
   Proof.
-    induction l as [|[lead n tr] r IH]; intros inner H; [reflexivity|].
+    induction l as [|[lead n tr] r IH]; intros inner first H; [reflexivity|].
     inversion H as [|? ? Hn Hr]; subst. cbn [cnode] in Hn. cbn [do_stmts_doc items_comments].
-    rewrite !dac_app, dac_leading_doc, dac_trailing_doc, (Hn inner), (IH inner Hr). reflexivity.
+    rewrite !dac_app, dac_leading_doc, dac_trailing_doc, dac_protect_minus, (Hn inner), (IH inner false Hr).
+    reflexivity.
   Qed.
 
   Lemma do_doc_keeps : forall stmts ret i,
@@ -161,11 +166,11 @@ Section Layouts.
   Proof.
     intros stmts [rl rn rt] i Hs Hr Ht. cbn in Ht; subst rt.
     unfold do_doc. cbn [cleading cnode expr_comments trailing_comments].
-    rewrite !dac_app, (do_stmts_keeps _ _ Hs), dac_leading_doc, (Hr _). cbn. now rewrite !app_nil_r.
+    rewrite !dac_app, (do_stmts_keeps _ _ _ Hs), dac_leading_doc, (Hr _). cbn. now rewrite !app_nil_r.
   Qed.
 
   Lemma call_doc_keeps : forall f args i, keeps f -> Forall keeps args ->
-    doc_all_comments (call_doc rec f args i) = expr_comments (ECall f args).
+    doc_all_comments (call_doc O rec f args i) = expr_comments (ECall f args).
   Proof.
     intros f args i Hf Ha. unfold call_doc. cbv zeta. cbn [expr_comments].
     assert (Hargs : forall inner,
@@ -173,17 +178,17 @@ Section Layouts.
       = flat_map expr_comments args).
     { intro inner. induction Ha as [|x l Hx Hl IH]; [reflexivity|].
       cbn [flat_map]. rewrite !dac_app, (Hx _), IH. cbn. now rewrite app_nil_r. }
-    destruct (is_lambda f); destruct args;
-      rewrite ?dac_app, ?Hargs, ?(Hf _); cbn; rewrite ?app_nil_r; reflexivity.
+    destruct args;
+      rewrite ?dac_app, ?dac_wrap_parens, ?Hargs, ?(Hf _); cbn; rewrite ?app_nil_r; reflexivity.
   Qed.
 
   Lemma binop_doc_keeps : forall op l r i, keeps l -> keeps r ->
-    doc_all_comments (binop_doc needs_parens w rec op l r i) = expr_comments (EBin op l r).
+    doc_all_comments (binop_doc O w rec op l r i) = expr_comments (EBin op l r).
   Proof.
     intros op l r i Hl Hr. unfold binop_doc. cbv zeta. cbn [expr_comments].
     repeat match goal with |- context [if ?b then _ else _] =>
       lazymatch b with
-      | needs_parens _ _ _ => fail
+      | o_needs_parens _ _ _ _ => fail
       | _ => destruct b
       end end;
     rewrite ?dac_app, ?dac_wrap_parens, ?(Hl _), ?(Hr _); cbn; rewrite ?app_nil_r; reflexivity.
@@ -212,13 +217,11 @@ End Layouts.
 
 (* ------------------------------------------------------------------ the formatter *)
 Section Fmt.
-  Variable e2s : expr -> string.
-  Variable needs_parens : binop -> expr -> bool -> bool.
-  Variable record_key : string -> string.
+  Variable O : oracles.
   Variable w : nat.
-  Let fmtd := fmtd e2s needs_parens record_key w.
+  Let fmtd := fmtd O w.
 
-  Lemma fmtd_eq : forall e i, fmtd e i = impl_doc e2s needs_parens record_key w fmtd e i.
+  Lemma fmtd_eq : forall e i, fmtd e i = impl_doc O w fmtd e i.
   Proof. intros e i; destruct e; reflexivity. Qed.
 
   Definition K (e : expr) : Prop := wf_ast e = true -> keeps fmtd e.
@@ -232,7 +235,7 @@ Section Fmt.
     match goal with |- K ?e /\ KC ?e =>
       assert (HK : K e) by
         (intros _ ?; rewrite fmtd_eq; unfold impl_doc;
-         destruct (fits_single _ _ _ _ _); apply opaque_keeps);
+         destruct (fits_single _ _ _ _); apply opaque_keeps);
       split; [exact HK | intros Hw; apply cond_doc_step; [exact (HK Hw) | intros; discriminate]]
     end.
   Ltac finish HK :=
@@ -252,7 +255,7 @@ Section Fmt.
       intros items H.
       assert (HK : K (EList items)).
       { intros Hw i. rewrite fmtd_eq. unfold impl_doc.
-        destruct (fits_single _ _ _ _ _); [apply opaque_keeps|].
+        destruct (fits_single _ _ _ _); [apply opaque_keeps|].
         cbn [multiline_doc]. apply list_doc_keeps.
         cbn [wf_ast] in Hw. rewrite forallb_forall in Hw.
         rewrite Forall_forall in *. intros c Hc. apply (H c Hc). apply Hw, Hc. }
@@ -261,7 +264,7 @@ Section Fmt.
       intros entries H.
       assert (HK : K (ERec entries)).
       { intros Hw i. rewrite fmtd_eq. unfold impl_doc.
-        destruct (fits_single _ _ _ _ _); [apply opaque_keeps|].
+        destruct (fits_single _ _ _ _); [apply opaque_keeps|].
         cbn [multiline_doc]. apply record_doc_keeps.
         cbn [wf_ast] in Hw. rewrite forallb_forall in Hw.
         rewrite Forall_forall in *. intros c Hc. specialize (H c Hc). specialize (Hw c Hc).
@@ -282,7 +285,7 @@ Section Fmt.
       assert (HK : K (ECond e1 e2 e3)).
       { intros Hw i. cbn [wf_ast] in Hw. apply andb_prop in Hw as [Hw H3]. apply andb_prop in Hw as [H1 H2].
         rewrite fmtd_eq. unfold impl_doc.
-        destruct (fits_single _ _ _ _ _); [apply opaque_keeps|].
+        destruct (fits_single _ _ _ _); [apply opaque_keeps|].
         cbn [multiline_doc expr_comments]. apply (KC3 H3); [apply (K1 H1)|apply (K2 H2)]. }
       split; [exact HK|].
       intros Hw; apply cond_doc_step; [exact (HK Hw)|].
@@ -303,21 +306,21 @@ Section Fmt.
       intros x v [IHe _].
       assert (HK : K (EAssign x v)).
       { intros Hw i. rewrite fmtd_eq. unfold impl_doc.
-        destruct (fits_single _ _ _ _ _); [apply opaque_keeps|].
+        destruct (fits_single _ _ _ _); [apply opaque_keeps|].
         cbn [multiline_doc expr_comments]. rewrite dac_cons. apply IHe, Hw. }
       finish HK.
     - (* EOutput *)
       intros v [IHe _].
       assert (HK : K (EOutput v)).
       { intros Hw i. rewrite fmtd_eq. unfold impl_doc.
-        destruct (fits_single _ _ _ _ _); [apply opaque_keeps|].
+        destruct (fits_single _ _ _ _); [apply opaque_keeps|].
         cbn [multiline_doc expr_comments]. rewrite dac_cons. apply IHe, Hw. }
       finish HK.
     - (* ECall *)
       intros f args [IHf _] H.
       assert (HK : K (ECall f args)).
       { intros Hw i. rewrite fmtd_eq. unfold impl_doc.
-        destruct (fits_single _ _ _ _ _); [apply opaque_keeps|].
+        destruct (fits_single _ _ _ _); [apply opaque_keeps|].
         cbn [multiline_doc]. cbn [wf_ast] in Hw. apply andb_prop in Hw as [Hf Ha].
         apply call_doc_keeps; [apply IHf, Hf|].
         rewrite forallb_forall in Ha. rewrite Forall_forall in *. intros a Hin. apply (H a Hin), Ha, Hin. }
@@ -328,7 +331,7 @@ Section Fmt.
       intros op e1 e2 [IH1 _] [IH2 _].
       assert (HK : K (EBin op e1 e2)).
       { intros Hw i. rewrite fmtd_eq. unfold impl_doc.
-        destruct (fits_single _ _ _ _ _); [apply opaque_keeps|].
+        destruct (fits_single _ _ _ _); [apply opaque_keeps|].
         cbn [multiline_doc]. cbn [wf_ast] in Hw. apply andb_prop in Hw as [H1 H2].
         apply binop_doc_keeps; [apply IH1, H1|apply IH2, H2]. }
       finish HK.
@@ -364,26 +367,40 @@ Proof.
   - cbn [join_spacing flat_map fst] in *. rewrite !dac_app, dac_repeat_nl, IH. reflexivity.
 Qed.
 
+Lemma dac_concat : forall l, doc_all_comments (concat l) = flat_map doc_all_comments l.
+Proof. induction l as [|d r IH]; [reflexivity|]. cbn [concat flat_map]. now rewrite dac_app, IH. Qed.
+
+Lemma flat_map_map_first : forall {A B C} (f : bool -> A -> B) (g : B -> list C) (h : A -> list C) l,
+  (forall b x, In x l -> g (f b x) = h x) -> flat_map g (map_first f l) = flat_map h l.
+Proof.
+  intros A B C f g h l H. destruct l as [|x r]; [reflexivity|].
+  cbn [map_first flat_map]. rewrite (H true x (or_introl eq_refl)). f_equal.
+  assert (H' : forall y, In y r -> g (f false y) = h y) by (intros; apply H; now right).
+  clear H. induction r as [|y r IH]; [reflexivity|].
+  cbn [map flat_map]. rewrite (H' y (or_introl eq_refl)), IH; [reflexivity|]. intros; apply H'; now right.
+Qed.
+
 Section Drivers.
-  Variable e2s : expr -> string.
-  Variable needs_parens : binop -> expr -> bool -> bool.
-  Variable record_key : string -> string.
+  Variable O : oracles.
 
   Lemma format_expr_accounts : forall e mw, wf_ast e = true ->
-    doc_all_comments (format_expr_doc e2s needs_parens record_key e mw) = expr_comments e.
+    doc_all_comments (format_expr_doc O e mw) = expr_comments e.
   Proof. intros. unfold format_expr_doc. now apply fmtd_accounts_for_all_comments. Qed.
 
-  Lemma lib_stmt_accounts : forall mw s, wf_stmt s = true ->
-    doc_all_comments (fst (fst (lib_stmt e2s needs_parens record_key mw s))) = stmt_comments s.
+  Lemma lib_stmt_accounts : forall mw first s, wf_stmt s = true ->
+    doc_all_comments (fst (fst (lib_stmt O mw first s))) = stmt_comments s.
   Proof.
-    intros mw [k eol sl el] Hw. cbn [lib_stmt fst stmt_comments].
+    intros mw first [k eol sl el] Hw. cbn [lib_stmt fst stmt_comments].
     assert (Hk : doc_all_comments
-                   match k with
-                   | SExpr e => format_expr_doc e2s needs_parens record_key e mw
-                   | SOut e => format_expr_doc e2s needs_parens record_key (EOutput e) mw
-                   | SComment c => [Comment c]
-                   end = match k with SExpr e | SOut e => expr_comments e | SComment c => [c] end).
-    { destruct k; cbn in Hw; [now apply format_expr_accounts| |reflexivity].
+                   (protect_minus
+                      match k with
+                      | SComment c => [Comment c]
+                      | SOut e => format_expr_doc O (EOutput e) mw
+                      | SExpr e => format_expr_doc O e mw
+                      end first)
+                 = match k with SExpr e | SOut e => expr_comments e | SComment c => [c] end).
+    { rewrite dac_protect_minus.
+      destruct k; cbn in Hw; [now apply format_expr_accounts| |reflexivity].
       rewrite format_expr_accounts; [reflexivity|exact Hw]. }
     destruct eol as [c|]; [rewrite dac_app|]; rewrite Hk; [reflexivity|now rewrite app_nil_r].
   Qed.
@@ -391,32 +408,33 @@ Section Drivers.
   (* library driver (blots-wasm format_blots): every comment of the program is accounted for *)
   Theorem lib_driver_accounts : forall mw p d,
     forallb wf_stmt p = true ->
-    format_lib e2s needs_parens record_key mw p = Some d ->
+    format_lib O mw p = Some d ->
     doc_all_comments d = program_comments p.
   Proof.
     intros mw p d Hw Hd. unfold format_lib in Hd.
-    assert (d = join_spacing (map (lib_stmt e2s needs_parens record_key mw) p))
+    assert (d = join_spacing (map_first (lib_stmt O mw) p))
       by (destruct p; [discriminate|now injection Hd]).
     subst d. rewrite dac_join_spacing. unfold program_comments.
     rewrite forallb_forall in Hw. clear Hd.
-    induction p as [|s r IH]; [reflexivity|].
-    cbn [map flat_map]. rewrite lib_stmt_accounts by (apply Hw; now left).
-    f_equal. apply IH. intros x Hx. apply Hw. now right.
+    apply flat_map_map_first. intros b x Hx. apply lib_stmt_accounts. now apply Hw.
+  Qed.
+
+  Lemma cli_stmt_accounts : forall first s, wf_stmt s = true ->
+    doc_all_comments (cli_stmt O first s) = stmt_comments s.
+  Proof.
+    intros first [k eol sl el] Hs. cbn [cli_stmt stmt_comments]. rewrite !dac_app.
+    replace (doc_all_comments [Nl]) with (@nil string) by reflexivity. rewrite app_nil_r. f_equal.
+    - destruct k; cbn in Hs; [rewrite dac_protect_minus; now apply format_expr_accounts| |reflexivity].
+      rewrite format_expr_accounts; [reflexivity|exact Hs].
+    - now destruct eol.
   Qed.
 
   (* CLI driver (blots --format): the same *)
   Theorem cli_driver_accounts : forall p,
     forallb wf_stmt p = true ->
-    doc_all_comments (format_cli e2s needs_parens record_key p) = program_comments p.
+    doc_all_comments (format_cli O p) = program_comments p.
   Proof.
-    intros p Hw. unfold format_cli, program_comments. rewrite forallb_forall in Hw.
-    induction p as [|s r IH]; [reflexivity|].
-    cbn [flat_map]. rewrite dac_app, IH by (intros x Hx; apply Hw; now right). f_equal.
-    assert (Hs := Hw s (or_introl eq_refl)). destruct s as [k eol sl el].
-    cbn [cli_stmt stmt_comments]. rewrite !dac_app.
-    replace (doc_all_comments [Nl]) with (@nil string) by reflexivity. rewrite app_nil_r. f_equal.
-    - destruct k; cbn in Hs; [now apply format_expr_accounts| |reflexivity].
-      rewrite format_expr_accounts; [reflexivity|exact Hs].
-    - now destruct eol.
+    intros p Hw. unfold format_cli, program_comments. rewrite dac_concat. rewrite forallb_forall in Hw.
+    apply flat_map_map_first. intros b x Hx. apply cli_stmt_accounts. now apply Hw.
   Qed.
 End Drivers.
